@@ -28,7 +28,10 @@ Oracle: central finite differences of the value of m().sum() (two step sizes, Ri
 combined); EVERY function evaluation is a graph freshly built from its JSON specification
 holding the perturbed base values, so no cached state of the implementation is relied on.
 The autograd gradient is read from parameter.grad after m().sum().backward() on a fresh graph
-(one graph per density) whose base parameters were created with requires_grad.  A pair is judged
+(one graph per density) whose base parameters were created with requires_grad; it is then read
+again on one graph after the histories the optimisation loop produces (evaluation under no_grad,
+change notification, backward; notification and backward again at the same values) and must be
+reproduced.  A pair is judged
 only where the value function is smooth at the point: the two step sizes must agree and the
 one-sided slopes must behave like those of a differentiable function (a kink or cusp exactly
 at the point, e.g. |x| at 0, is not a point where a derivative exists)."""
@@ -167,6 +170,52 @@ def ad_of(spec, vals, rescale, name, params):
         g = dic[p].grad
         grads[p] = None if g is None else g.detach().clone().reshape(-1).tolist()
     return "ok", grads, ""
+
+
+def ad_history_of(spec, vals, rescale, name, params, grads0):
+    """the gradient read again on one graph after the histories the optimisation loop produces:
+    (a) an evaluation under no_grad (convergence monitor / logger), the change notification, then
+    value + backward; (b) the notification and value + backward once more at the same values.
+    Both must reproduce the gradient of the single evaluation on a fresh graph.
+    Returns None or a text."""
+    import torch
+
+    def close(a, b):
+        if a is None or b is None:
+            return a is None and b is None
+        for x, y in zip(a, b):
+            if math.isnan(x) or math.isnan(y):
+                if not (math.isnan(x) and math.isnan(y)):
+                    return False
+            elif abs(x - y) > 1e-9 * max(1.0, abs(x), abs(y)):
+                return False
+        return len(a) == len(b)
+
+    dic = tt.load(spec_with(spec, vals, grad=params))
+    force(dic, rescale)
+    step = "evaluation under no_grad"
+    try:
+        with torch.no_grad():
+            dic[name]()
+        for k, label in enumerate(("no_grad evaluation, notification, backward",
+                                   "... notification, second backward at the same values")):
+            step = label
+            for p in params:
+                dic[p].fire_parameter_changed()
+                dic[p].tensor.grad = None
+            s = dic[name]().sum()
+            if not s.requires_grad:
+                return f"after [{label}] the value does not require grad"
+            s.backward()
+            for p in params:
+                g = dic[p].grad
+                g = None if g is None else g.detach().reshape(-1).tolist()
+                if not close(g, grads0.get(p)):
+                    return (f"after [{label}] the gradient w.r.t. {p} is {g}, the single evaluation on a "
+                            f"fresh graph gives {grads0.get(p)}")
+    except Exception as e:
+        return f"[{step}] raises {type(e).__name__}: {str(e)[:160]}"
+    return None
 
 
 def dependents(spec, vals, rescale, names, base, p, rel):
@@ -976,6 +1025,8 @@ def ad_unit(u):
             ad[n] = {"mode": "per", "per": per, "text": text}
         else:
             ad[n] = {"mode": "all", "status": st, "grads": grads, "text": text}
+            if st == "ok":
+                ad[n]["hist"] = ad_history_of(spec, vals, rs, n, allp, grads)
     return {"kind": "ad", "key": (gid, j, rs), "base": base, "info": info, "skipped": skipped, "ad": ad,
             "gap": gap, "self_rescaled": self_rescaled, "builds": 1 + len(ad)}
 
@@ -1115,6 +1166,19 @@ def judge_all(ads, fds, seed):
                     local.append((n, p, i, bad))
         if not rs:
             carry[(gid, j)] = failing
+        for n in sorted(a["ad"]):
+            h = a["ad"][n].get("hist")
+            if h and not any(n == n_ for n_, _, _, _ in local):
+                info = a["info"][n]
+                sig = {"check": "history", "density": info["class"], "root_cause": info["class"], "family": fam,
+                       "rescale": rs, "point_kind": "neutral" if isinstance(j, str) else "generic"}
+                if info["has_like"]:
+                    sig["subst_model"] = info["subst"]
+                    sig["degenerate_spectrum"] = info["degenerate"]
+                viol.append({"case": {"graph": gid, "point": j, "rescale": rs, "seed": seed, "density": n,
+                                      "history": True},
+                             "detail": f"{gid} point {j} rescale={rs}: gradient of {n}().sum() ({info['class']}) "
+                                       f"depends on the evaluation history: {h}", "sig": sig})
         for n, p, i, bad in local:
             info = a["info"][n]
             roots = sorted({a["info"][m]["class"] for m in info["members"]
@@ -1144,7 +1208,7 @@ def replay(case):
         u["focus"] = case["point"][2:]
     with contextlib.redirect_stdout(io.StringIO()):
         a = ad_unit(dict(u, kind="ad"))
-        f = fd_unit(dict(u, kind="fd", elems=[(case["param"], case["index"])]))
+        f = fd_unit(dict(u, kind="fd", elems=[] if case.get("history") else [(case["param"], case["index"])]))
     viol, _ = judge_all({key: a}, {key: f["fd"]}, case["seed"])
     return [v for v in viol if v["case"]["density"] == case["density"]]
 
